@@ -26,8 +26,8 @@ def gen_frame (rng, kind=None, tagged=None, pad=None, payload_len=None,
   if tagged is None: tagged = rng.random() < 0.35
   vlan = None
   if tagged:
-    vlan = (rng.randrange(8), 0, rng.choice([0, 1, 5, 100, 4094, 4095,
-                                             rng.randrange(4096)]))
+    vlan = (rng.randrange(8), rng.choice([0, 0, 1]),
+            rng.choice([0, 1, 5, 100, 4094, 4095, rng.randrange(4096)]))
   if pad is None: pad = rng.random() < 0.3
   dst = dst or rng.choice(MACS)
   src = src or rng.choice(MACS[:3] + [MACS[5]])
@@ -35,7 +35,7 @@ def gen_frame (rng, kind=None, tagged=None, pad=None, payload_len=None,
     payload_len = rng.choice([0, 1, 2, 5, 18, 19, 46, 100, 101, 600])
   data = bytes(rng.getrandbits(8) for _ in range(payload_len))
   sip = rng.choice(IPS[:6]); dip = rng.choice(IPS)
-  tos = rng.randrange(64) << 2
+  tos = (rng.randrange(64) << 2) | rng.choice([0, 0, 0, 1, 2, 3])    # (DSCP and ECN)
   desc = dict(kind=k, tagged=bool(tagged))
   def ip (proto, l4, **kw):
     if "flags" not in kw:
@@ -46,7 +46,10 @@ def gen_frame (rng, kind=None, tagged=None, pad=None, payload_len=None,
                   ttl=rng.choice([1, 64, 255]), **kw)
   if k == "tcp":
     l4 = F.tcp(rng.choice([80, 1, 65535, 1234]), rng.choice([80, 443, 0, 65535]),
-               data, seq=rng.getrandbits(32), src=sip, dst=dip)
+               data, seq=rng.getrandbits(32), src=sip, dst=dip,
+               ack=rng.choice([0, rng.getrandbits(32)]),
+               flags=rng.choice([0x02, 0x12, 0x10, 0x18, 0xc2, 0xff, 0x00, 0x29]),
+               win=rng.choice([1000, 0, 65535]), urg=rng.choice([0, 0, 7]))
     raw = F.eth(dst, src, 0x0800, ip(6, l4), vlan, pad)
   elif k == "tcp_opts":
     l4 = F.tcp(4000, 22, data, options=b"\x02\x04\x05\xb4\x01\x01\x01\x00",
